@@ -359,6 +359,9 @@ def _raised_type(w):
 def classify(case, witness):
     if not isinstance(witness, dict) or witness.get("qi") is None:
         return None
+    hg = witness.get("history_geometry")
+    if isinstance(hg, dict):            # the failing projection was made on the moved geometry
+        case = dict(case, X=list(hg["X"]), Y=list(hg["Y"]))
     if witness.get("what", "").startswith("mapOnTrack(track) output"):
         return None
     try:
@@ -410,6 +413,36 @@ FN = {"seg": "proj_segment", "poly": "proj_polyligne", "track": "mapOnTrack", "t
 
 
 def run_case(case, ctx):
+    """The judged projections; then, for the Track front ends, a call history on the same objects: the reference
+    track is edited in place (same number of fixes, other positions) and the same queries are projected again."""
+    res, track = _run(case, ctx, None)
+    if res["v"] != "held" or track is None or case["kind"] not in ("track", "tracks"):
+        return res
+    for i in range(track.size()):
+        pos = track.getObs(i).position
+        pos.setX(pos.getX() + 3.0)
+        pos.setY(2.0 * pos.getY() - 1.0)
+    case2 = dict(case, X=list(track.getX()), Y=list(track.getY()))
+    res2, _ = _run(case2, ctx, track)
+    if res2["v"] == "violated":
+        res2["witness"]["history"] = "second projection on the same Track object after its fixes were moved in place"
+        res2["witness"]["history_geometry"] = {"X": case2["X"], "Y": case2["Y"]}
+        res2["sig"], res2["nt"] = res["sig"], res["nt"]
+        return res2
+    if res2["v"] == "held":
+        res["cls"] = list(res["cls"]) + ["history_reference_edited_in_place"]
+    return res
+
+
+def _run(case, ctx, given_track):
+    def violated(*a, **k):
+        return gen.violated(*a, **k), None
+
+    def held(*a, **k):
+        return gen.held(*a, **k), track
+
+    def ood(*a, **k):
+        return gen.ood(*a, **k), None
     kind = case["kind"]
     pts = _pts(case)
     Q = case["Q"]
@@ -430,7 +463,7 @@ def run_case(case, ctx):
             break
 
     results = []          # per query: (got, raised)
-    track = _make_track(pts) if kind in ("track", "tracks") else None
+    track = (given_track or _make_track(pts)) if kind in ("track", "tracks") else None
     snap = None
     if track is not None:
         snap = (list(track.getX()), list(track.getY()))
